@@ -1,12 +1,14 @@
 """Runner: build, execute driver scripts, parse the event log and sanitizer
 reports, spread cases over worker processes, match known findings, write
 evidence and produce the exit status of a check."""
+import errno
 import hashlib
 import json
 import multiprocessing as mp
 import os
 import random
 import re
+import zlib
 import shutil
 import signal
 import subprocess
@@ -81,8 +83,17 @@ class Script:
     """Accumulates driver lines; remembers 1-based line numbers so that the
     checker can find the event of a given operation (events carry "i")."""
 
+    # A caller's errno is whatever an earlier, unrelated call left behind.
+    # Line 1 of every script is "errno_preset N": the driver enters every
+    # library call of the case with errno = N and reports a call that left it
+    # untouched as errno 0.  N is 0 for 40 % of the scripts, 4242 (a value no
+    # call produces) for 30 % and ERANGE (what a successful strtod / log10 /
+    # exp inside an earlier call leaves behind; no libvna function reports it)
+    # for 30 %, chosen from the script's own text.
+    ERRNO_MIX = True
+
     def __init__(self):
-        self.lines = []
+        self.lines = ["errno_preset 0"] if self.ERRNO_MIX else []
 
     def add(self, line):
         self.lines.append(line)
@@ -110,6 +121,11 @@ class Script:
         return self.add("buf %s cmatrix %d %d %s" % (name, len(cells), n, flat))
 
     def text(self):
+        if self.lines and self.lines[0].startswith("errno_preset "):
+            body = "\n".join(self.lines[1:])
+            h = zlib.crc32(body.encode("utf-8", "replace")) % 10
+            self.lines[0] = "errno_preset %d" % (
+                0 if h < 4 else 4242 if h < 7 else errno.ERANGE)
         return "\n".join(self.lines) + "\n"
 
 
